@@ -54,5 +54,6 @@ Census == done => PrintT(ToJson([r |-> rid,
                                  fwd |-> Cardinality(FwdDiff),
                                  first |-> IF FwdDiff = {} THEN 0 ELSE CHOOSE j \in FwdDiff : TRUE,
                                  sound |-> Cardinality(Unsound),
-                                 isound |-> Cardinality(ImplUnsound)]))
+                                 isound |-> Cardinality(ImplUnsound),
+                                 ifirst |-> IF ImplUnsound = {} THEN 0 ELSE CHOOSE j \in ImplUnsound : TRUE]))
 =============================================================================
